@@ -12,13 +12,14 @@ W=/tmp/seedv-$name; rm -rf "$W"; mkdir -p "$W"
 git -C /repo worktree add --detach "$W/wt" >/dev/null 2>&1 || exit 2
 cd "$W/wt"
 mkdir -p zz_demo; cp "$D/demo_test.go" zz_demo/demo_test.go
-go test -vet=off -count=1 ./zz_demo/ > "$W/demo-clean.log" 2>&1; clean_rc=$?
+RACEFLAG=""; if grep -q '"needs_race_detector": *true' "$D/agent-meta.json" 2>/dev/null; then RACEFLAG="-race"; fi
+go test $RACEFLAG -vet=off -count=1 ./zz_demo/ > "$W/demo-clean.log" 2>&1; clean_rc=$?
 if ! git apply "$D/patch.diff" 2> "$W/apply.log"; then
   # the patch was written against an earlier HEAD of /repo: try a 3-way merge
   if git apply -3 "$D/patch.diff" 2>> "$W/apply.log" && ! git diff --name-only --diff-filter=U | grep -q .; then echo "patch applied with 3-way merge"; git reset -q; else echo "PATCH DOES NOT APPLY"; tail -5 "$W/apply.log"; fi
 fi
 go build ./... > "$W/build.log" 2>&1; build_rc=$?
-go test -vet=off -count=1 ./zz_demo/ > "$W/demo-patched.log" 2>&1; patched_rc=$?
+go test $RACEFLAG -vet=off -count=1 ./zz_demo/ > "$W/demo-patched.log" 2>&1; patched_rc=$?
 rm -rf zz_demo
 go test -vet=off -count=1 ./... > "$W/suite.log" 2>&1; suite_rc=$?
 echo "build=$build_rc suite=$suite_rc demo_clean=$clean_rc demo_patched=$patched_rc"
@@ -34,6 +35,6 @@ for c in "$@"; do
   rm -rf "$W/verif-out-$id"
 done
 cat > "$D/verify.json" <<JSON
-{"build_rc":$build_rc,"suite_rc":$suite_rc,"demo_rc_without_patch":$clean_rc,"demo_rc_with_patch":$patched_rc,"checks":[${results%,}],"ran":"tools/seed-verify.sh in a scratch worktree of /repo HEAD $(git -C /repo rev-parse --short HEAD)"}
+{"build_rc":$build_rc,"suite_rc":$suite_rc,"demo_rc_without_patch":$clean_rc,"demo_rc_with_patch":$patched_rc,"checks":[${results%,}],"demo_run_with_race":"$RACEFLAG","ran":"tools/seed-verify.sh in a scratch worktree of /repo HEAD $(git -C /repo rev-parse --short HEAD)"}
 JSON
 cd /; git -C /repo worktree remove --force "$W/wt"; rm -rf "$W"; git -C /repo worktree prune
